@@ -215,23 +215,23 @@ Qed.
 
 (* ---------- termination measure: the exact number of remaining micro-steps of an actor ---------- *)
 Definition after_lock (a : actor) : nat :=
-  match a_kind a with KWriter _ _ true _ _ => 9 | _ => 4 end.
+  match a_kind a with KWriter _ _ true _ _ => 10 | _ => 4 end.
 
 Definition ameasure (a : actor) : nat :=
   let L := length (a_locks a) in
   match a_pc a with
   | PStart => match a_kind a with
               | KWriter tabs _ _ _ _ => 2 + 2 * length (lock_order tabs) + after_lock a
-              | KRegistrar => 5 end
+              | KRegistrar => 6 end
   | PBeforeLock => 1 + 2 * L + after_lock a
   | PLocking k => 2 + 2 * (L - S k) + after_lock a
   | PLocked k => 1 + 2 * (L - S k) + after_lock a
   | PWLocked => after_lock a
   | PRootLoaded => after_lock a - 1
-  | PCommitIdx => 7 | PRootLocked => 6 | PRootStored => 5 | PRootUnlocked => 4 | PNotified => 3
+  | PCommitIdx => 8 | PRootLocked => 7 | PCommitLoaded => 6 | PRootStored => 5 | PRootUnlocked => 4 | PNotified => 3
   | PTabsUnlocked => 2 | PInitClosed => 1
   | PAbortBefore => 2 | PAbortUnlocked => 1
-  | PRegBefore => 4 | PRegLocked => 3 | PRegStored => 2 | PRegUnlocked => 1
+  | PRegBefore => 5 | PRegLocked => 4 | PRegLoaded => 3 | PRegStored => 2 | PRegUnlocked => 1
   | PDone => 0
   end.
 
@@ -344,15 +344,15 @@ Qed.
 (* explicit bound on the total number of micro-steps *)
 Definition step_bound (actors : list (N * kind)) : nat :=
   list_sum (map (fun ik => match snd ik with
-                           | KWriter tabs _ _ _ _ => 11 + 2 * length tabs
-                           | KRegistrar => 5 end) actors).
+                           | KWriter tabs _ _ _ _ => 12 + 2 * length tabs
+                           | KRegistrar => 6 end) actors).
 
 Lemma total_init_bound ntab actors : total (init_st ntab actors) <= step_bound actors.
 Proof.
   unfold total, step_bound, init_st. cbn [s_actors]. rewrite map_map.
   induction actors as [|[id k] r IH]; cbn [map]; rewrite ?list_sum_cons; [lia|].
-  assert (H : ameasure (mkA id k PStart [] [] [] []) <=
-              match k with KWriter tabs _ _ _ _ => 11 + 2 * length tabs | KRegistrar => 5 end).
+  assert (H : ameasure (mkA id k PStart [] [] [] [] []) <=
+              match k with KWriter tabs _ _ _ _ => 12 + 2 * length tabs | KRegistrar => 6 end).
   { unfold ameasure, after_lock. cbn [a_pc a_kind fst snd]. destruct k as [tabs wr c rg dn|]; [|lia].
     pose proof (lock_order_length tabs). destruct c; lia. }
   cbn [fst snd] in *. lia.
